@@ -199,10 +199,13 @@ func checkC04(c C04Case, r *Rec) *Violation {
 		describe := func() string {
 			return fmt.Sprintf("config=%s\nsrc=%s\ndump=%s\navailable=%v\nbinding=%v", maskName(mask), src, eval.Dump(e), c.Avail, describeU(u))
 		}
+		// one context for the whole sequence of this configuration: availability grows on the
+		// same Ctx (as after VariableFetcher.Set), it is not a fresh Ctx every time
+		seqF := NewFetcher(u, cc, log)
+		seqCtx := seqF.Ctx()
 		try := func(av map[string]bool) Outcome {
-			f := NewFetcher(u, cc, log)
-			f.Avail = av
-			return Safe(func() (eval.Value, error) { return e.TryEval(f.Ctx()) })
+			seqF.Avail = av
+			return Safe(func() (eval.Value, error) { return e.TryEval(seqCtx) })
 		}
 		o := try(avail)
 		if o.Panic != nil {
